@@ -30,6 +30,8 @@ def corpus5():
         # reads its own memo (BINGET of a class and of a repeated string): exposes memo state leaking between stacked pickles
         "short-frame-p4": asm(("PROTO", 4), ("FRAME", 3), ("BININT1", 5), "POP", ("SHORT_BINUNICODE", "after the frame"), "STOP"),
         "atom-p0": b"N.",
+        # text that only encodes with surrogatepass (the pickler writes it, strict UTF-8 re-encoding does not)
+        "surrogate-p3": pickle.dumps(["a\udc80b", 1], protocol=3),
         "int-p0": b"I7\n.",
         "shared-p4": pickle.dumps([vp_objs.Plain(a=1), vp_objs.Plain(a=2), "rep", "rep"], protocol=4),
     }
@@ -213,7 +215,7 @@ def check(tier):
     rep = Report(PROP, tier)
     c5 = corpus5()
     kmax = 4 if tier == "thorough" else 3
-    names5 = list(c5) if tier == "thorough" else ["list", "instance", "reduce", "proto0-dict", "frozenset", "shared-p4", "atom-p0", "short-frame-p4"]
+    names5 = list(c5) if tier == "thorough" else ["list", "instance", "reduce", "proto0-dict", "frozenset", "shared-p4", "atom-p0", "short-frame-p4", "surrogate-p3"]
     stacks = []
     for k in range(1, kmax + 1):
         pool = names5 if k < 4 else names5[:4]
